@@ -349,6 +349,9 @@ static mj::Value cmd_run(const mj::Value &rq) {
     if (rq.at("shape").boolean(false)) {
       r.set("shape", stack_shape(*s.chai));
       if (!s.h->cb_shape.is_null()) r.set("cb_shape", s.h->cb_shape);
+      mj::Value names = mj::Value::array();
+      for (const auto &kv : s.chai->get_locals()) names.push(kv.first);
+      r.set("locals", std::move(names));
     }
     if (rq.has("post")) {
       mj::Value posts = mj::Value::array();
